@@ -1,9 +1,9 @@
 #!/bin/sh
 # soak.sh [seed] [tier] [ids...] — run the checks of several properties in a row; one summary line per property
 SEED="${1:-1}"; TIER="${2:-thorough}"; shift 2 2>/dev/null || true
-IDS="${*:-C01 C02 C03 C04 C05 C06 C07 C09 C10 C11 C14 C15 C16 C17 C19}"
+IDS="${*:-C01 C02 C03 C04 C05 C06 C07 C08 C09 C10 C11 C12 C13 C14 C15 C16 C17 C18 C19 C20}"
 cd /verif
 for c in $IDS; do
-  VERIF_SEED=$SEED timeout 7200 ./check $c --tier $TIER > /tmp/soak_$c.log 2>&1; rc=$?
-  echo "$c rc=$rc $(grep -c '^VIOLATION' /tmp/soak_$c.log) violations; $(grep -v '^KNOWN' /tmp/soak_$c.log | tail -1 | cut -c1-160)"
+  VERIF_SEED=$SEED timeout 7200 ./check $c --tier $TIER > /tmp/soak_${SEED}_$c.log 2>&1; rc=$?
+  echo "$c seed=$SEED rc=$rc $(grep -c '^VIOLATION' /tmp/soak_${SEED}_$c.log) violations; $(grep -v '^KNOWN' /tmp/soak_${SEED}_$c.log | tail -1 | cut -c1-160)"
 done
